@@ -17,7 +17,7 @@ fn fake_decode(_src: &[u8], w: usize, h: usize, image: &mut [u32]) -> Result<(),
 fn k_tex_decode_rgba_order() {
     let px: [u32; 3] = kani::any();
     unsafe { FAKE_PIXELS = px; }
-    let out = Texture::decode(&[], 3, 1, fake_decode);
+    let out = match Texture::decode(&[0u8; 8], 3, 1, fake_decode) { Some(o) => o, None => { assert!(false, "a block decoder that succeeds yields an image"); return; } };
     assert!(out.len() == 12, "width*height*4 bytes");
     let i: usize = kani::any();
     kani::assume(i < 3);
@@ -141,4 +141,64 @@ fn k_tex_bgra_2x1_concrete_header() {
         None => assert!(false, "a well-formed B8G8R8A8 texture parses"),
     }
     kani::cover!(true, "reachable");
+}
+
+//@use_common
+
+fn ntx_file(attr: u32, format: u32, w: u16, h: u16, d: u16, payload: &[u8]) -> Vec<u8> { let mut v = tex_header(attr, format, w, h, d).to_vec(); v.extend_from_slice(payload); v }
+fn ntx_payload(n: usize, seed: u32) -> Vec<u8> { let mut x = seed.wrapping_mul(2654435761).wrapping_add(7); (0..n).map(|_| { x = x.wrapping_mul(1664525).wrapping_add(1013904223); (x >> 24) as u8 }).collect() }
+
+//@unit props=C13 label=B tier=quick native=1 fn=tex::Texture::{from_existing,decode} bound="by execution: B8G8R8A8, BC1, BC3 and BC5 textures of 15 sizes (1x1 .. 37x19, non-multiples of 4 included), depth 1, 2 and 4, attribute words {0, 0x1000000, 0x2800000, 0xFFFFFFFF restricted to defined bits}, pseudo-random payloads"
+//@desc the decoded image has width x height x depth RGBA pixels; B8G8R8A8 pixels are the stored B,G,R,A bytes reordered; a block-compressed pixel (x, y) is the reordered word that the block decoder assigns to texel (x mod 4, y mod 4) of block (y/4)*ceil(w/4) + x/4; the texture is three-dimensional exactly when attribute bit 0x1000000 is set
+#[test]
+fn native_tex_decode() {
+    let mut cases = 0u64;
+    let sizes: [(u16, u16); 15] = [(1, 1), (2, 3), (4, 4), (5, 3), (3, 5), (8, 8), (7, 9), (16, 4), (4, 16), (13, 13), (37, 19), (1, 9), (9, 1), (6, 4), (12, 20)];
+    for (si, (w, h)) in sizes.iter().enumerate() {
+        for d in [1u16, 2, 4] {
+            if d > 1 && h % 4 != 0 { continue; }
+            for attr in [0u32, 0x0100_0000, 0x0280_0000, 0x8FF0_0FFF] {
+                let (wu, hu) = (*w as usize, *h as usize * d as usize);
+                // B8G8R8A8
+                let pay = ntx_payload(wu * hu * 4, si as u32);
+                let t = Texture::from_existing(&ntx_file(attr, 0x1450, *w, *h, d, &pay)).expect("B8G8R8A8 texture parses");
+                assert_eq!((t.width, t.height, t.depth, t.rgba.len()), (*w as u32, *h as u32, d as u32, wu * hu * 4), "dimensions");
+                assert_eq!(matches!(t.texture_type, TextureType::ThreeDimensional), attr & 0x0100_0000 != 0, "three-dimensional exactly when the attribute says so");
+                for i in 0..wu * hu { assert_eq!(&t.rgba[4 * i..4 * i + 4], &[pay[4 * i + 2], pay[4 * i + 1], pay[4 * i], pay[4 * i + 3]], "BGRA -> RGBA at pixel {i}"); }
+                // block formats
+                let (nbx, nby) = ((wu + 3) / 4, (hu + 3) / 4);
+                for (fmt, bs, blk) in [(0x3420u32, 8usize, crate::bcn::decode_bc1_block as fn(&[u8], &mut [u32])), (0x3431, 16, crate::bcn::decode_bc3_block), (0x6230, 16, crate::bcn::decode_bc5_block)] {
+                    let pay = ntx_payload(nbx * nby * bs, (si * 3 + bs) as u32);
+                    let t = Texture::from_existing(&ntx_file(attr, fmt, *w, *h, d, &pay)).expect("block-compressed texture parses");
+                    assert_eq!((t.width, t.height, t.depth, t.rgba.len()), (*w as u32, *h as u32, d as u32, wu * hu * 4), "dimensions (format {fmt:#x})");
+                    for y in 0..hu { for x in 0..wu {
+                        let k = (y / 4) * nbx + x / 4;
+                        let mut b = [0xFF00_0000u32; 16]; // the driver's initial block buffer: blue 0, alpha 255
+                        blk(&pay[k * bs..k * bs + bs], &mut b);
+                        let v = b[(y % 4) * 4 + x % 4].to_le_bytes();
+                        assert_eq!(&t.rgba[4 * (y * wu + x)..4 * (y * wu + x) + 4], &[v[2], v[1], v[0], v[3]], "format {fmt:#x}, {w}x{h}x{d}: pixel ({x},{y})");
+                    } }
+                    assert!(Texture::from_existing(&ntx_file(attr, fmt, *w, *h, d, &pay[..pay.len() - 1])).is_none(), "one byte short: no texture");
+                }
+                cases += 4;
+            }
+        }
+    }
+    println!("NATIVE native_tex_decode cases={cases}");
+}
+
+//@unit props=C18 label=B tier=quick native=1 fn=tex::Texture::from_existing bound="by execution: a 6x5 texture of each format (B4G4R4A4, B8G8R8A8, BC1, BC3, BC5): every truncation and 7 single-byte corruptions per byte of the 80-byte header and payload; headers announcing 65535 x 65535 x 65535 with a 64-byte payload"
+//@desc damaged textures (truncated payload, any header byte damaged, huge dimensions) yield None or a value, never a panic or an allocation out of proportion
+#[test]
+fn native_tex_damaged_nopanic() {
+    let f = |b: &[u8]| { let _ = Texture::from_existing(b); };
+    let mut s = NativeSites::new();
+    for (fmt, n) in [(0x1440u32, 60usize), (0x1450, 120), (0x3420, 32), (0x3431, 64), (0x6230, 64)] {
+        let v = ntx_file(0, fmt, 6, 5, 1, &ntx_payload(n, fmt));
+        assert!(Texture::from_existing(&v).is_some(), "the undamaged texture of format {fmt:#x} parses");
+        s.sweep(&v, 1 << 20, 1, &f);
+        s.run(&f, &ntx_file(0, fmt, 0xFFFF, 0xFFFF, 0xFFFF, &ntx_payload(64, 1)), &format!("format {fmt:#x}: 65535^3 pixels announced, 64 bytes stored"));
+        s.run(&f, &ntx_file(0, fmt, 0xFFFF, 0xFFFF, 1, &ntx_payload(64, 1)), &format!("format {fmt:#x}: 65535^2 pixels announced, 64 bytes stored"));
+    }
+    s.finish("native_tex_damaged_nopanic");
 }
